@@ -8,6 +8,9 @@ Ltac Zify.zify_post_hook ::= Z.div_mod_to_equations.
 
 Ltac splits := repeat match goal with |- _ /\ _ => split end.
 
+Lemma unit_size_le4 w : (1 <= unit_size w <= 4)%nat.
+Proof. destruct w; cbn; lia. Qed.
+
 (* ---------- bytes <-> native units ---------- *)
 
 Lemma unit_bytes_length e w u : length (unit_bytes e w u) = unit_size w.
@@ -305,7 +308,11 @@ Lemma decode_step w tgt pol mark text m o n :
   (r_code r = Success \/ r_code r = UnexpectedEnd) /\
   (r_pos r <= n)%nat /\ Consumed w tgt text (m + r_pos r) (r_out r) /\
   (r_code r = Success -> r_pos r = n) /\
-  (r_code r = UnexpectedEnd -> (r_pos r < n)%nat /\ (n - r_pos r < 4)%nat /\ (m + n < length (encs w text))%nat).
+  (r_code r = UnexpectedEnd -> (r_pos r < n)%nat /\ (n - r_pos r < 4)%nat /\ (m + n < length (encs w text))%nat) /\
+  (* different widths: what stays behind is the beginning of character number j0 *)
+  (r_code r = UnexpectedEnd -> width_eqb w tgt = false ->
+     exists j0, (j0 < length text)%nat /\ (m + r_pos r)%nat = length (encs w (firstn j0 text)) /\
+       r_out r = encs tgt (firstn j0 text) /\ (m + n < length (encs w (firstn (S j0) text)))%nat).
 Proof.
   intros Hs HC Hn. cbn zeta. unfold Consumed in *.
   remember (encs w text) as U eqn:EU0.
@@ -318,13 +325,13 @@ Proof.
     destruct w, tgt; try discriminate; unfold core_decode.
     + (* 8 -> 8 : Transcode copies *)
       unfold transcode. cbn [width_eqb]. cbn [r_code r_pos r_out]. rewrite Lsl, Eapp.
-      splits; try tauto; try lia; try reflexivity; try discriminate.
+      splits; try tauto; try lia; try reflexivity; try discriminate; try (intros _ Hx; discriminate Hx).
     + (* 16 -> 16 *)
       rewrite copy16_spec. destruct (rev (slice U m n)) as [|lastu rl] eqn:Er.
       * assert (n = 0%nat).
         { apply (f_equal (@length N)) in Er. rewrite rev_length, Lsl in Er. exact Er. }
         subst n. cbn [r_code r_pos r_out]. rewrite Nat.add_0_r.
-        splits; try tauto; try lia; try reflexivity; try discriminate.
+        splits; try tauto; try lia; try reflexivity; try discriminate; try (intros _ Hx; discriminate Hx).
       * assert (Hn0 : (0 < n)%nat).
         { apply (f_equal (@length N)) in Er. rewrite rev_length, Lsl in Er. cbn in Er. lia. }
         assert (Esl : slice U m n = rev rl ++ [lastu]).
@@ -344,7 +351,7 @@ Proof.
            assert (Eapp2 : firstn m U ++ slice U m (n - 1) = firstn (m + (n - 1)) U).
            { rewrite firstn_add_split. reflexivity. }
            rewrite Eapp2. cbn [Nat.add].
-           splits; try tauto; try lia; try reflexivity; try discriminate.
+           splits; try tauto; try lia; try reflexivity; try discriminate; try (intros _ Hx; discriminate Hx).
            intros _. splits; try lia.
            (* the window cannot be the end of the text *)
            destruct (Nat.eq_dec (m + n) (length U)) as [Heq|Hneq]; [|lia]. exfalso.
@@ -353,12 +360,12 @@ Proof.
            { rewrite Eapp, Heq. symmetry. apply firstn_all. }
            rewrite EU, Esl, app_assoc, rev_app_distr in HL. cbn [rev app] in HL. congruence.
         -- rewrite Eapp. cbn [Nat.add].
-           splits; try tauto; try lia; try reflexivity; try discriminate.
+           splits; try tauto; try lia; try reflexivity; try discriminate; try (intros _ Hx; discriminate Hx).
     + (* 32 -> 32 *)
       cbn [r_code r_pos r_out]. rewrite Lsl.
       assert (Ec : map cast32 (slice U m n) = slice U m n).
       { apply map_cast32_id. apply units_slice. rewrite EU0. apply encs_units. exact Hs. }
-      rewrite Ec, Eapp. splits; try tauto; try lia; try reflexivity; try discriminate.
+      rewrite Ec, Eapp. splits; try tauto; try lia; try reflexivity; try discriminate; try (intros _ Hx; discriminate Hx).
   - (* different widths: Transcode *)
     destruct HC as [j [Hj [Hm ->]]].
     assert (EU : U = encs w (firstn j text) ++ encs w (skipn j text)).
@@ -407,19 +414,30 @@ Proof.
     destruct part as [|p0 part'].
     + cbn [length] in Lp. rewrite Nat.add_0_r in Lp.
       splits; try tauto; try lia; try discriminate; try exact HC'.
-    + splits; try tauto; try (cbn [length] in Lp; lia); try discriminate; try exact HC'.
-      intros _. destruct P3 as [P3|[c [rest [Ec [[tl [Htl Et]] Hne]]]]]; [discriminate|].
-      cbn [length] in Lp. splits; try lia.
-      * (* a proper prefix of a character has at most 3 units *)
-        assert (Hl4 : (length (enc w c) <= 4)%nat).
-        { destruct w; cbn [enc]; [unfold enc8 | unfold enc16 | unfold enc32];
-            repeat match goal with |- context [if ?b then _ else _] => destruct b end; cbn; lia. }
-        apply (f_equal (@length N)) in Et. rewrite app_length in Et. cbn [length] in Et.
-        destruct tl; [congruence|]. cbn [length] in Et. lia.
-      * (* the rest of that character is still to come *)
+    + destruct P3 as [P3|[c [rest [Ec [[tl [Htl Et]] Hne]]]]]; [discriminate|].
+      cbn [length] in Lp.
+      assert (Hl4 : (length (enc w c) <= 4)%nat).
+      { destruct w; cbn [enc]; [unfold enc8 | unfold enc16 | unfold enc32];
+          repeat match goal with |- context [if ?b then _ else _] => destruct b end; cbn; lia. }
+      assert (Let : length (enc w c) = (S (length part') + length tl)%nat).
+      { apply (f_equal (@length N)) in Et. rewrite app_length in Et. cbn [length] in Et. exact Et. }
+      assert (Ltl : (1 <= length tl)%nat) by (destruct tl; [congruence | cbn; lia]).
+      (* the text up to and including the character that is cut *)
+      assert (Hjj : (j + j' < length text)%nat).
+      { assert (Hl : length (skipn j' (skipn j text)) = S (length rest)) by (rewrite Ec; reflexivity).
+        rewrite !skipn_length in Hl. lia. }
+      assert (Ef : firstn (j + j') text = firstn j text ++ firstn j' (skipn j text)) by apply firstn_add_split.
+      assert (Ef1 : firstn (S (j + j')) text = firstn (j + j') text ++ [c]).
+      { replace (S (j + j')) with ((j + j') + 1)%nat by lia. rewrite firstn_add_split. f_equal.
+        rewrite <- skipn_skipn, Ec. reflexivity. }
+      splits; try tauto; try (cbn [length] in Lp; lia); try discriminate; try exact HC'.
+      * intros _. splits; try lia.
         rewrite EU, app_length, <- Hm.
         rewrite <- (firstn_skipn j' (skipn j text)), Ec, encs_app, app_length.
-        change (encs w (c :: rest)) with (enc w c ++ encs w rest). rewrite app_length.
-        apply (f_equal (@length N)) in Et. rewrite app_length in Et. cbn [length] in Et.
-        destruct tl; [congruence|]. cbn [length] in Et. lia.
+        change (encs w (c :: rest)) with (enc w c ++ encs w rest). rewrite app_length. lia.
+      * intros _ _. exists (j + j')%nat. splits.
+        -- exact Hjj.
+        -- rewrite Ef, encs_app, app_length. lia.
+        -- rewrite Ef, encs_app. reflexivity.
+        -- rewrite Ef1, Ef, !encs_app, !app_length. cbn [encs flat_map]. rewrite app_nil_r. lia.
 Qed.
